@@ -196,3 +196,13 @@ M("c16-file-threshold", "C16", RF, '            "threshold": fp_attrs["threshold
 M("c16-file-masks-lost", "C16", RF, "                if isinstance(value, np.ndarray):\n                    fp.create_dataset(key, data=value)", "                if isinstance(value, np.ndarray) and key != \"custom_mask\":\n                    fp.create_dataset(key, data=value)")
 M("c16-mask-kernel-chan", "C16", K, "        if mask[ichan]:\n            for isamp in range(nsamps):\n                array[nchans * isamp + ichan] = maskvalue", "        if mask[ichan]:\n            for isamp in range(nsamps - (ichan == nchans - 1)):\n                array[nchans * isamp + ichan] = maskvalue", "last channel: last sample of every block left unmasked")
 M("c16-clean-stats-range", "C16", B, "            self.compute_stats(gulp=gulp, start=start, nsamps=nsamps, **plan_kwargs)", "            self.compute_stats(gulp=gulp, **plan_kwargs)", "statistics taken over the whole file instead of the selected range")
+
+# ---- C17
+FC = "sigpyproc/foldedcube.py"
+M("c17-delta-vs-current-dm", "C17", FC, "        delta_dm = newdm - self._ref_dm", "        delta_dm = newdm - self.dm", "original F17 (DM half)")
+M("c17-period-vs-current", "C17", FC, "            (newperiod / self._ref_period - 1)\n            * self.header.tobs\n            * self.nbins\n            / self._ref_period", "            (newperiod / self._period - 1)\n            * self.header.tobs\n            * self.nbins\n            / self._period", "original F17 (period half)")
+M("c17-fph-not-stored", "C17", FC, "        bin_drifts = drifts - self._fph_shifts\n        self._fph_shifts = drifts\n        return bin_drifts", "        bin_drifts = drifts - self._fph_shifts\n        return bin_drifts")
+M("c17-dm-not-recorded", "C17", FC, "                    axis=0,\n                )\n        self._dm = dm", "                    axis=0,\n                )\n        self._dm = dm if dm != self._ref_dm else self._dm", "returning to the folding DM leaves the previous DM reported")
+M("c17-reset-without-clear", "C17", FC, "            drifts = -1 * self._tph_shifts\n            self._tph_shifts.fill(0)\n            return drifts", "            drifts = -1 * self._tph_shifts\n            return drifts", "return to p0 does not clear the stored period shifts")
+M("c17-dm-binwidth-current-period", "C17", FC, "        tsamp = self._ref_period / self.nbins", "        tsamp = self.period / self.nbins", "DM shift uses the bin width of the current period: order of updates matters when rounding flips")
+M("c17-period-roll-index", "C17", FC, "                    -pdelays[isubint],", "                    -pdelays[isubint] if isubband < 2 else -pdelays[0],", "third and later sub-bands take the first sub-integration's period shift")
